@@ -214,12 +214,24 @@ type c07LexInfo struct {
 
 // c07Ctx: the directive keyword an entry starts with (parentheses and quotes stripped), else "record".
 func c07Ctx(entry string) string {
-	w := strings.Fields(strings.Map(func(r rune) rune {
-		if r == '(' || r == ')' || r == '"' {
-			return ' '
+	var sb strings.Builder
+	comment := false
+	for i := 0; i < len(entry); i++ {
+		c := entry[i]
+		switch {
+		case c == '\n':
+			comment = false
+			sb.WriteByte(' ')
+		case comment:
+		case c == ';':
+			comment = true
+		case c == '(' || c == ')' || c == '"':
+			sb.WriteByte(' ')
+		default:
+			sb.WriteByte(c)
 		}
-		return r
-	}, entry))
+	}
+	w := strings.Fields(sb.String())
 	if len(w) > 0 && strings.HasPrefix(w[0], "$") {
 		return strings.ToUpper(w[0])
 	}
@@ -228,6 +240,10 @@ func c07Ctx(entry string) string {
 
 func c07Lex(text string) c07LexInfo {
 	var li c07LexInfo
+	if strings.Contains(text, "\\\r") {
+		// backslash before CR: whether the CR is escaped or dropped first is a matter of reading; no claim
+		return li
+	}
 	depth := 0
 	quote, comment, escape := false, false, false
 	lineStart := 0
@@ -489,21 +505,19 @@ func c07Spaces(c *fw.Ctx) {
 		maxTok = 5
 	}
 	A := c07Alphabet
-	c.Space("tokens", fmt.Sprintf("all strings of ≤ %d tokens over the 22-token alphabet {a . SP TAB LF CR \" \\ ; ( ) @ NUL 0xff IN A TXT $TTL $ORIGIN '$INCLUDE x' '$GENERATE 0-1' k×600}, each alone, after a valid record line, after an unterminated quote and after an unclosed parenthesis × origins {\"\", example., invalid} × includes {off,on} with a counting fs.FS (strings with an $INCLUDE also: × {FS whose file includes itself, FS with an 8-deep chain, no FS + on-disk sentinel}); plus NewRR on strings without $INCLUDE; one case = one choice of the first two tokens; non-trivial: some parse in the case returned a record beyond the prefix line or took an include", maxTok), true,
+	c.Space("tokens", fmt.Sprintf("all strings of ≤ %d tokens over the 22-token alphabet {a . SP TAB LF CR \" \\ ; ( ) @ NUL 0xff IN A TXT $TTL $ORIGIN '$INCLUDE x' '$GENERATE 0-1' k×600}, each alone, after a valid record line, after an unterminated quote and after an unclosed parenthesis × origins {\"\", example., invalid} × includes {off,on} with a counting fs.FS (strings with an $INCLUDE also: × {FS whose file includes itself, FS with an 8-deep chain, no FS + on-disk sentinel}); plus NewRR on strings without $INCLUDE; one case = one choice of the first (length-2) tokens; non-trivial: some parse in the case returned a record beyond the prefix line or took an include", maxTok), true,
 		func(emit func(func(*fw.R))) {
 			// strings of 0 and 1 tokens
 			emit(func(r *fw.R) {
 				n, _ := c07Text(r, "")
-				for _, t := range A {
-					k, _ := c07Text(r, t)
-					n += k
-				}
-				r.Nontrivial()
+				r.Nontrivial() // the prefixes alone
 				r.Count("texts_parsed", int64(n))
 			})
-			for _, t1 := range A {
-				for _, t2 := range A {
-					t1, t2 := t1, t2
+			// one case per choice of the first maxTok-2 tokens
+			head := maxTok - 2
+			var gen func(s string, depth int)
+			gen = func(s string, depth int) {
+				if depth == head {
 					emit(func(r *fw.R) {
 						n, nt := 0, false
 						var rec func(s string, depth int)
@@ -518,15 +532,29 @@ func c07Spaces(c *fw.Ctx) {
 								rec(s+t, depth+1)
 							}
 						}
-						rec(t1+t2, 2)
+						rec(s, depth)
 						if nt {
 							r.Nontrivial()
 						}
 						r.Count("texts_parsed", int64(n))
-						r.Sample(func() any { return c07Show(t1 + t2 + "…") })
+						r.Sample(func() any { return c07Show(s + "…") })
+					})
+					return
+				}
+				if depth > 0 {
+					emit(func(r *fw.R) { // the shorter strings themselves
+						n, nt := c07Text(r, s)
+						if nt {
+							r.Nontrivial()
+						}
+						r.Count("texts_parsed", int64(n))
 					})
 				}
+				for _, t := range A {
+					gen(s+t, depth+1)
+				}
 			}
+			gen("", 0)
 		})
 
 	c07LengthSpace(c)
